@@ -68,7 +68,13 @@ func VerifH_SYS_C16() {
 		b.silentConn = verifChoice("silentconn", 2)
 		b.silentFrom = verifChoice("silentfrom", 2)
 	}
-	cli, err := NewReconnectClient(b, WithReconnectWait(unit, 4*unit), WithTimeout(timeout), WithPingInterval(interval))
+	opts := []ReconnectOption{WithReconnectWait(unit, 4*unit), WithPingInterval(interval)}
+	if verifChoice("timeoutopt", 2) == 0 {
+		opts = append(opts, WithTimeout(timeout))
+	} else {
+		timeout = interval // documented default: the ping interval
+	}
+	cli, err := NewReconnectClient(b, opts...)
 	verifAssert(err == nil, "SYS.new_client")
 	disconnect := verifChoice("disconnect", 2) == 1
 	discOn := -1
